@@ -8,8 +8,9 @@ namespace Rbgp.Enc
 open Rbgp.Enc.Spec
 
 /-- Domain of the master theorem: buildable and encodable messages of every kind; for UPDATEs the IPv4/IPv6
-    unicast/multicast families; announcements on sessions with 4-octet AS numbers on both sides and without the
-    recorded "IPv4 next hop in MP_REACH" defect.  (`encodable` = every entry fits a frame of its own: the chunk
+    unicast/multicast families; announcements on sessions with 4-octet AS numbers on both sides or towards a
+    2-octet-AS peer with an AS_PATH RFC 6793 can carry (`carriableB`), and without the recorded "IPv4 next hop in
+    MP_REACH" defect.  (`encodable` = every entry fits a frame of its own: the chunk
     loop's progress needs no further side condition.) -/
 def Dom (i : Input) : Bool := domReach i || domUnreach i || domSmall i || domOpen i
 
